@@ -293,6 +293,31 @@ class Runs:
             if r is not None:
                 self.traces.append((j[1], j[2]))
 
+    def long_delays_start(self, label):
+        """Delays of ten seconds and more, waited out in a process of their own that runs alongside everything else
+        (only never-early / at-most-once / started-at-all are asserted, so load does not matter)."""
+        import threading
+        c = self.c
+        self.n += 1
+        out = c.path("trace", "%s-%d.ndjson" % (label, self.n))
+        box = {}
+
+        def work():
+            try:
+                c.run_vh(["drive", "timerpanic", "-seed", c.seed, "-out", out, "-x", "mode=long", "-x", "tier=" + c.tier], timeout=600)
+            except BaseException as e:     # reported when joined
+                box["err"] = e
+        th = threading.Thread(target=work, daemon=True)
+        th.start()
+        self._long = (th, out, label, box)
+
+    def long_delays_join(self):
+        th, out, label, box = self._long
+        th.join()
+        if "err" in box:
+            raise box["err"]
+        self.traces.append((out, label))
+
     def panicking(self, label, n, timeout=300):
         """Scheduled functions that panic, each scenario in a process of its own (the death of that process by the planted
         panic ends the observation; a package that lives on is bound by the contract for what follows)."""
